@@ -14770,16 +14770,41 @@ let ounwrap = function
 | Some v -> v
 | None -> N0
 
-(** val run_m_go :
-    opts -> bool -> row option -> bytes list -> bytes list -> bool * bytes
-    list **)
+(** val dump_compact : row -> bytes **)
 
-let rec run_m_go o path_m r ms acc =
+let dump_compact r =
+  app
+    (str (String ((Ascii (false, false, true, false, true, true, true,
+      false)), (String ((Ascii (false, true, false, false, true, true, true,
+      false)), (String ((Ascii (true, true, false, true, false, true, true,
+      false)), (String ((Ascii (true, false, true, true, true, true, false,
+      false)), EmptyString)))))))))
+    (app (oN r.track)
+      (app
+        (str (String ((Ascii (false, false, false, false, false, true, false,
+          false)), (String ((Ascii (true, true, true, false, false, true,
+          true, false)), (String ((Ascii (true, true, false, false, true,
+          true, true, false)), (String ((Ascii (true, false, true, true,
+          true, true, false, false)), EmptyString)))))))))
+        (app (oN r.grspeed)
+          (app
+            (str (String ((Ascii (false, false, false, false, false, true,
+              false, false)), (String ((Ascii (false, true, true, false,
+              true, true, true, false)), (String ((Ascii (false, true, false,
+              false, true, true, true, false)), (String ((Ascii (true, false,
+              true, true, true, true, false, false)), EmptyString)))))))))
+            (oZ r.vrate)))))
+
+(** val run_m_go :
+    opts -> bool -> bool -> row option -> bytes list -> bytes list ->
+    bool * bytes list **)
+
+let rec run_m_go o compact path_m r ms acc =
   match ms with
   | [] -> (true, (rev_append acc []))
   | hm :: rest ->
     (match hm with
-     | [] -> run_m_go o path_m r rest acc
+     | [] -> run_m_go o compact path_m r rest acc
      | _ :: _ ->
        let m = map hexv hm in
        let step0 =
@@ -14809,8 +14834,9 @@ let rec run_m_go o path_m r ms acc =
         | Ok a ->
           (match a with
            | Some r' ->
-             run_m_go o path_m (Some r') rest ((dump_row Z0 r') :: acc)
-           | None -> run_m_go o path_m r rest acc)
+             run_m_go o compact path_m (Some r') rest
+               ((if compact then dump_compact r' else dump_row Z0 r') :: acc)
+           | None -> run_m_go o compact path_m r rest acc)
         | Panic _ -> (false, (rev_append acc []))))
 
 (** val run_m : opts -> bytes -> bytes * bytes **)
@@ -14832,52 +14858,575 @@ let run_m o body =
           true, true, false)), (String ((Ascii (false, false, false, false,
           true, true, true, false)), EmptyString))))))))), [])
      | rest :: _ ->
-       let (ok, ds) =
-         run_m_go o
-           (match p with
-            | [] -> false
-            | n0 :: l0 ->
-              (match n0 with
-               | N0 -> false
-               | Npos p0 ->
-                 (match p0 with
-                  | XI p1 ->
-                    (match p1 with
-                     | XO p2 ->
-                       (match p2 with
-                        | XI p3 ->
-                          (match p3 with
-                           | XI p4 ->
-                             (match p4 with
-                              | XO p5 ->
-                                (match p5 with
-                                 | XI p6 ->
-                                   (match p6 with
-                                    | XH ->
-                                      (match l0 with
-                                       | [] -> true
-                                       | _ :: _ -> false)
+       (match p with
+        | [] ->
+          let compact = false in
+          let (ok, ds) =
+            run_m_go o compact
+              (match p with
+               | [] -> false
+               | n0 :: l0 ->
+                 (match n0 with
+                  | N0 -> false
+                  | Npos p0 ->
+                    (match p0 with
+                     | XI p1 ->
+                       (match p1 with
+                        | XO p2 ->
+                          (match p2 with
+                           | XI p3 ->
+                             (match p3 with
+                              | XI p4 ->
+                                (match p4 with
+                                 | XO p5 ->
+                                   (match p5 with
+                                    | XI p6 ->
+                                      (match p6 with
+                                       | XH ->
+                                         (match l0 with
+                                          | [] -> true
+                                          | _ :: _ -> false)
+                                       | _ -> false)
                                     | _ -> false)
                                  | _ -> false)
                               | _ -> false)
                            | _ -> false)
                         | _ -> false)
-                     | _ -> false)
-                  | _ -> false))) None
-           (split (Npos (XO (XO (XI (XI (XO XH)))))) rest) []
-       in
-       ((if ok
-         then str (String ((Ascii (true, true, true, true, false, true, true,
-                false)), (String ((Ascii (true, true, false, true, false,
-                true, true, false)), EmptyString))))
-         else str (String ((Ascii (false, false, false, false, true, true,
-                true, false)), (String ((Ascii (true, false, false, false,
-                false, true, true, false)), (String ((Ascii (false, true,
-                true, true, false, true, true, false)), (String ((Ascii
-                (true, false, false, true, false, true, true, false)),
-                (String ((Ascii (true, true, false, false, false, true, true,
-                false)), EmptyString))))))))))),
-       (if ok then join ((Npos (XI (XI (XO (XO (XO XH)))))) :: []) ds else [])))
+                     | _ -> false))) None
+              (split (Npos (XO (XO (XI (XI (XO XH)))))) rest) []
+          in
+          ((if ok
+            then str (String ((Ascii (true, true, true, true, false, true,
+                   true, false)), (String ((Ascii (true, true, false, true,
+                   false, true, true, false)), EmptyString))))
+            else str (String ((Ascii (false, false, false, false, true, true,
+                   true, false)), (String ((Ascii (true, false, false, false,
+                   false, true, true, false)), (String ((Ascii (false, true,
+                   true, true, false, true, true, false)), (String ((Ascii
+                   (true, false, false, true, false, true, true, false)),
+                   (String ((Ascii (true, true, false, false, false, true,
+                   true, false)), EmptyString))))))))))),
+          (if ok
+           then join ((Npos (XI (XI (XO (XO (XO XH)))))) :: []) ds
+           else []))
+        | n0 :: t ->
+          (match n0 with
+           | N0 ->
+             let compact = false in
+             let (ok, ds) =
+               run_m_go o compact
+                 (match p with
+                  | [] -> false
+                  | n1 :: l0 ->
+                    (match n1 with
+                     | N0 -> false
+                     | Npos p0 ->
+                       (match p0 with
+                        | XI p1 ->
+                          (match p1 with
+                           | XO p2 ->
+                             (match p2 with
+                              | XI p3 ->
+                                (match p3 with
+                                 | XI p4 ->
+                                   (match p4 with
+                                    | XO p5 ->
+                                      (match p5 with
+                                       | XI p6 ->
+                                         (match p6 with
+                                          | XH ->
+                                            (match l0 with
+                                             | [] -> true
+                                             | _ :: _ -> false)
+                                          | _ -> false)
+                                       | _ -> false)
+                                    | _ -> false)
+                                 | _ -> false)
+                              | _ -> false)
+                           | _ -> false)
+                        | _ -> false))) None
+                 (split (Npos (XO (XO (XI (XI (XO XH)))))) rest) []
+             in
+             ((if ok
+               then str (String ((Ascii (true, true, true, true, false, true,
+                      true, false)), (String ((Ascii (true, true, false,
+                      true, false, true, true, false)), EmptyString))))
+               else str (String ((Ascii (false, false, false, false, true,
+                      true, true, false)), (String ((Ascii (true, false,
+                      false, false, false, true, true, false)), (String
+                      ((Ascii (false, true, true, true, false, true, true,
+                      false)), (String ((Ascii (true, false, false, true,
+                      false, true, true, false)), (String ((Ascii (true,
+                      true, false, false, false, true, true, false)),
+                      EmptyString))))))))))),
+             (if ok
+              then join ((Npos (XI (XI (XO (XO (XO XH)))))) :: []) ds
+              else []))
+           | Npos p0 ->
+             (match p0 with
+              | XO p1 ->
+                (match p1 with
+                 | XI p2 ->
+                   (match p2 with
+                    | XI p3 ->
+                      (match p3 with
+                       | XO p4 ->
+                         (match p4 with
+                          | XI p5 ->
+                            (match p5 with
+                             | XI p6 ->
+                               (match p6 with
+                                | XH ->
+                                  let compact = true in
+                                  let (ok, ds) =
+                                    run_m_go o compact
+                                      (match t with
+                                       | [] -> false
+                                       | n1 :: l0 ->
+                                         (match n1 with
+                                          | N0 -> false
+                                          | Npos p7 ->
+                                            (match p7 with
+                                             | XI p8 ->
+                                               (match p8 with
+                                                | XO p9 ->
+                                                  (match p9 with
+                                                   | XI p10 ->
+                                                     (match p10 with
+                                                      | XI p11 ->
+                                                        (match p11 with
+                                                         | XO p12 ->
+                                                           (match p12 with
+                                                            | XI p13 ->
+                                                              (match p13 with
+                                                               | XH ->
+                                                                 (match l0 with
+                                                                  | [] -> true
+                                                                  | _ :: _ ->
+                                                                    false)
+                                                               | _ -> false)
+                                                            | _ -> false)
+                                                         | _ -> false)
+                                                      | _ -> false)
+                                                   | _ -> false)
+                                                | _ -> false)
+                                             | _ -> false))) None
+                                      (split (Npos (XO (XO (XI (XI (XO
+                                        XH)))))) rest) []
+                                  in
+                                  ((if ok
+                                    then str (String ((Ascii (true, true,
+                                           true, true, false, true, true,
+                                           false)), (String ((Ascii (true,
+                                           true, false, true, false, true,
+                                           true, false)), EmptyString))))
+                                    else str (String ((Ascii (false, false,
+                                           false, false, true, true, true,
+                                           false)), (String ((Ascii (true,
+                                           false, false, false, false, true,
+                                           true, false)), (String ((Ascii
+                                           (false, true, true, true, false,
+                                           true, true, false)), (String
+                                           ((Ascii (true, false, false, true,
+                                           false, true, true, false)),
+                                           (String ((Ascii (true, true,
+                                           false, false, false, true, true,
+                                           false)), EmptyString))))))))))),
+                                  (if ok
+                                   then join ((Npos (XI (XI (XO (XO (XO
+                                          XH)))))) :: []) ds
+                                   else []))
+                                | _ ->
+                                  let compact = false in
+                                  let (ok, ds) =
+                                    run_m_go o compact
+                                      (match p with
+                                       | [] -> false
+                                       | n1 :: l0 ->
+                                         (match n1 with
+                                          | N0 -> false
+                                          | Npos p7 ->
+                                            (match p7 with
+                                             | XI p8 ->
+                                               (match p8 with
+                                                | XO p9 ->
+                                                  (match p9 with
+                                                   | XI p10 ->
+                                                     (match p10 with
+                                                      | XI p11 ->
+                                                        (match p11 with
+                                                         | XO p12 ->
+                                                           (match p12 with
+                                                            | XI p13 ->
+                                                              (match p13 with
+                                                               | XH ->
+                                                                 (match l0 with
+                                                                  | [] -> true
+                                                                  | _ :: _ ->
+                                                                    false)
+                                                               | _ -> false)
+                                                            | _ -> false)
+                                                         | _ -> false)
+                                                      | _ -> false)
+                                                   | _ -> false)
+                                                | _ -> false)
+                                             | _ -> false))) None
+                                      (split (Npos (XO (XO (XI (XI (XO
+                                        XH)))))) rest) []
+                                  in
+                                  ((if ok
+                                    then str (String ((Ascii (true, true,
+                                           true, true, false, true, true,
+                                           false)), (String ((Ascii (true,
+                                           true, false, true, false, true,
+                                           true, false)), EmptyString))))
+                                    else str (String ((Ascii (false, false,
+                                           false, false, true, true, true,
+                                           false)), (String ((Ascii (true,
+                                           false, false, false, false, true,
+                                           true, false)), (String ((Ascii
+                                           (false, true, true, true, false,
+                                           true, true, false)), (String
+                                           ((Ascii (true, false, false, true,
+                                           false, true, true, false)),
+                                           (String ((Ascii (true, true,
+                                           false, false, false, true, true,
+                                           false)), EmptyString))))))))))),
+                                  (if ok
+                                   then join ((Npos (XI (XI (XO (XO (XO
+                                          XH)))))) :: []) ds
+                                   else [])))
+                             | _ ->
+                               let compact = false in
+                               let (ok, ds) =
+                                 run_m_go o compact
+                                   (match p with
+                                    | [] -> false
+                                    | n1 :: l0 ->
+                                      (match n1 with
+                                       | N0 -> false
+                                       | Npos p6 ->
+                                         (match p6 with
+                                          | XI p7 ->
+                                            (match p7 with
+                                             | XO p8 ->
+                                               (match p8 with
+                                                | XI p9 ->
+                                                  (match p9 with
+                                                   | XI p10 ->
+                                                     (match p10 with
+                                                      | XO p11 ->
+                                                        (match p11 with
+                                                         | XI p12 ->
+                                                           (match p12 with
+                                                            | XH ->
+                                                              (match l0 with
+                                                               | [] -> true
+                                                               | _ :: _ ->
+                                                                 false)
+                                                            | _ -> false)
+                                                         | _ -> false)
+                                                      | _ -> false)
+                                                   | _ -> false)
+                                                | _ -> false)
+                                             | _ -> false)
+                                          | _ -> false))) None
+                                   (split (Npos (XO (XO (XI (XI (XO XH))))))
+                                     rest) []
+                               in
+                               ((if ok
+                                 then str (String ((Ascii (true, true, true,
+                                        true, false, true, true, false)),
+                                        (String ((Ascii (true, true, false,
+                                        true, false, true, true, false)),
+                                        EmptyString))))
+                                 else str (String ((Ascii (false, false,
+                                        false, false, true, true, true,
+                                        false)), (String ((Ascii (true,
+                                        false, false, false, false, true,
+                                        true, false)), (String ((Ascii
+                                        (false, true, true, true, false,
+                                        true, true, false)), (String ((Ascii
+                                        (true, false, false, true, false,
+                                        true, true, false)), (String ((Ascii
+                                        (true, true, false, false, false,
+                                        true, true, false)),
+                                        EmptyString))))))))))),
+                               (if ok
+                                then join ((Npos (XI (XI (XO (XO (XO
+                                       XH)))))) :: []) ds
+                                else [])))
+                          | _ ->
+                            let compact = false in
+                            let (ok, ds) =
+                              run_m_go o compact
+                                (match p with
+                                 | [] -> false
+                                 | n1 :: l0 ->
+                                   (match n1 with
+                                    | N0 -> false
+                                    | Npos p5 ->
+                                      (match p5 with
+                                       | XI p6 ->
+                                         (match p6 with
+                                          | XO p7 ->
+                                            (match p7 with
+                                             | XI p8 ->
+                                               (match p8 with
+                                                | XI p9 ->
+                                                  (match p9 with
+                                                   | XO p10 ->
+                                                     (match p10 with
+                                                      | XI p11 ->
+                                                        (match p11 with
+                                                         | XH ->
+                                                           (match l0 with
+                                                            | [] -> true
+                                                            | _ :: _ -> false)
+                                                         | _ -> false)
+                                                      | _ -> false)
+                                                   | _ -> false)
+                                                | _ -> false)
+                                             | _ -> false)
+                                          | _ -> false)
+                                       | _ -> false))) None
+                                (split (Npos (XO (XO (XI (XI (XO XH))))))
+                                  rest) []
+                            in
+                            ((if ok
+                              then str (String ((Ascii (true, true, true,
+                                     true, false, true, true, false)),
+                                     (String ((Ascii (true, true, false,
+                                     true, false, true, true, false)),
+                                     EmptyString))))
+                              else str (String ((Ascii (false, false, false,
+                                     false, true, true, true, false)),
+                                     (String ((Ascii (true, false, false,
+                                     false, false, true, true, false)),
+                                     (String ((Ascii (false, true, true,
+                                     true, false, true, true, false)),
+                                     (String ((Ascii (true, false, false,
+                                     true, false, true, true, false)),
+                                     (String ((Ascii (true, true, false,
+                                     false, false, true, true, false)),
+                                     EmptyString))))))))))),
+                            (if ok
+                             then join ((Npos (XI (XI (XO (XO (XO
+                                    XH)))))) :: []) ds
+                             else [])))
+                       | _ ->
+                         let compact = false in
+                         let (ok, ds) =
+                           run_m_go o compact
+                             (match p with
+                              | [] -> false
+                              | n1 :: l0 ->
+                                (match n1 with
+                                 | N0 -> false
+                                 | Npos p4 ->
+                                   (match p4 with
+                                    | XI p5 ->
+                                      (match p5 with
+                                       | XO p6 ->
+                                         (match p6 with
+                                          | XI p7 ->
+                                            (match p7 with
+                                             | XI p8 ->
+                                               (match p8 with
+                                                | XO p9 ->
+                                                  (match p9 with
+                                                   | XI p10 ->
+                                                     (match p10 with
+                                                      | XH ->
+                                                        (match l0 with
+                                                         | [] -> true
+                                                         | _ :: _ -> false)
+                                                      | _ -> false)
+                                                   | _ -> false)
+                                                | _ -> false)
+                                             | _ -> false)
+                                          | _ -> false)
+                                       | _ -> false)
+                                    | _ -> false))) None
+                             (split (Npos (XO (XO (XI (XI (XO XH)))))) rest)
+                             []
+                         in
+                         ((if ok
+                           then str (String ((Ascii (true, true, true, true,
+                                  false, true, true, false)), (String ((Ascii
+                                  (true, true, false, true, false, true,
+                                  true, false)), EmptyString))))
+                           else str (String ((Ascii (false, false, false,
+                                  false, true, true, true, false)), (String
+                                  ((Ascii (true, false, false, false, false,
+                                  true, true, false)), (String ((Ascii
+                                  (false, true, true, true, false, true,
+                                  true, false)), (String ((Ascii (true,
+                                  false, false, true, false, true, true,
+                                  false)), (String ((Ascii (true, true,
+                                  false, false, false, true, true, false)),
+                                  EmptyString))))))))))),
+                         (if ok
+                          then join ((Npos (XI (XI (XO (XO (XO
+                                 XH)))))) :: []) ds
+                          else [])))
+                    | _ ->
+                      let compact = false in
+                      let (ok, ds) =
+                        run_m_go o compact
+                          (match p with
+                           | [] -> false
+                           | n1 :: l0 ->
+                             (match n1 with
+                              | N0 -> false
+                              | Npos p3 ->
+                                (match p3 with
+                                 | XI p4 ->
+                                   (match p4 with
+                                    | XO p5 ->
+                                      (match p5 with
+                                       | XI p6 ->
+                                         (match p6 with
+                                          | XI p7 ->
+                                            (match p7 with
+                                             | XO p8 ->
+                                               (match p8 with
+                                                | XI p9 ->
+                                                  (match p9 with
+                                                   | XH ->
+                                                     (match l0 with
+                                                      | [] -> true
+                                                      | _ :: _ -> false)
+                                                   | _ -> false)
+                                                | _ -> false)
+                                             | _ -> false)
+                                          | _ -> false)
+                                       | _ -> false)
+                                    | _ -> false)
+                                 | _ -> false))) None
+                          (split (Npos (XO (XO (XI (XI (XO XH)))))) rest) []
+                      in
+                      ((if ok
+                        then str (String ((Ascii (true, true, true, true,
+                               false, true, true, false)), (String ((Ascii
+                               (true, true, false, true, false, true, true,
+                               false)), EmptyString))))
+                        else str (String ((Ascii (false, false, false, false,
+                               true, true, true, false)), (String ((Ascii
+                               (true, false, false, false, false, true, true,
+                               false)), (String ((Ascii (false, true, true,
+                               true, false, true, true, false)), (String
+                               ((Ascii (true, false, false, true, false,
+                               true, true, false)), (String ((Ascii (true,
+                               true, false, false, false, true, true,
+                               false)), EmptyString))))))))))),
+                      (if ok
+                       then join ((Npos (XI (XI (XO (XO (XO XH)))))) :: []) ds
+                       else [])))
+                 | _ ->
+                   let compact = false in
+                   let (ok, ds) =
+                     run_m_go o compact
+                       (match p with
+                        | [] -> false
+                        | n1 :: l0 ->
+                          (match n1 with
+                           | N0 -> false
+                           | Npos p2 ->
+                             (match p2 with
+                              | XI p3 ->
+                                (match p3 with
+                                 | XO p4 ->
+                                   (match p4 with
+                                    | XI p5 ->
+                                      (match p5 with
+                                       | XI p6 ->
+                                         (match p6 with
+                                          | XO p7 ->
+                                            (match p7 with
+                                             | XI p8 ->
+                                               (match p8 with
+                                                | XH ->
+                                                  (match l0 with
+                                                   | [] -> true
+                                                   | _ :: _ -> false)
+                                                | _ -> false)
+                                             | _ -> false)
+                                          | _ -> false)
+                                       | _ -> false)
+                                    | _ -> false)
+                                 | _ -> false)
+                              | _ -> false))) None
+                       (split (Npos (XO (XO (XI (XI (XO XH)))))) rest) []
+                   in
+                   ((if ok
+                     then str (String ((Ascii (true, true, true, true, false,
+                            true, true, false)), (String ((Ascii (true, true,
+                            false, true, false, true, true, false)),
+                            EmptyString))))
+                     else str (String ((Ascii (false, false, false, false,
+                            true, true, true, false)), (String ((Ascii (true,
+                            false, false, false, false, true, true, false)),
+                            (String ((Ascii (false, true, true, true, false,
+                            true, true, false)), (String ((Ascii (true,
+                            false, false, true, false, true, true, false)),
+                            (String ((Ascii (true, true, false, false, false,
+                            true, true, false)), EmptyString))))))))))),
+                   (if ok
+                    then join ((Npos (XI (XI (XO (XO (XO XH)))))) :: []) ds
+                    else [])))
+              | _ ->
+                let compact = false in
+                let (ok, ds) =
+                  run_m_go o compact
+                    (match p with
+                     | [] -> false
+                     | n1 :: l0 ->
+                       (match n1 with
+                        | N0 -> false
+                        | Npos p1 ->
+                          (match p1 with
+                           | XI p2 ->
+                             (match p2 with
+                              | XO p3 ->
+                                (match p3 with
+                                 | XI p4 ->
+                                   (match p4 with
+                                    | XI p5 ->
+                                      (match p5 with
+                                       | XO p6 ->
+                                         (match p6 with
+                                          | XI p7 ->
+                                            (match p7 with
+                                             | XH ->
+                                               (match l0 with
+                                                | [] -> true
+                                                | _ :: _ -> false)
+                                             | _ -> false)
+                                          | _ -> false)
+                                       | _ -> false)
+                                    | _ -> false)
+                                 | _ -> false)
+                              | _ -> false)
+                           | _ -> false))) None
+                    (split (Npos (XO (XO (XI (XI (XO XH)))))) rest) []
+                in
+                ((if ok
+                  then str (String ((Ascii (true, true, true, true, false,
+                         true, true, false)), (String ((Ascii (true, true,
+                         false, true, false, true, true, false)),
+                         EmptyString))))
+                  else str (String ((Ascii (false, false, false, false, true,
+                         true, true, false)), (String ((Ascii (true, false,
+                         false, false, false, true, true, false)), (String
+                         ((Ascii (false, true, true, true, false, true, true,
+                         false)), (String ((Ascii (true, false, false, true,
+                         false, true, true, false)), (String ((Ascii (true,
+                         true, false, false, false, true, true, false)),
+                         EmptyString))))))))))),
+                (if ok
+                 then join ((Npos (XI (XI (XO (XO (XO XH)))))) :: []) ds
+                 else []))))))
 
 (** val run_case : bytes -> bytes **)
 
